@@ -1,6 +1,139 @@
 import Driver.Util
+import Sqfs.Model.MetaReader
+import Sqfs.Model.DataReaderCache
+/-!
+`sqfsmodel c10 [old]` — line-protocol driver for the reader-cache models (stateful: one in-memory file, a set of
+scripted bad ranges, numbered reader objects).  `old` selects the model of the unrepaired code (`fix = false`).
+
+    file <hex>                       -> ok <len>      (new image: forgets bad ranges and all reader objects)
+    bad <off> <len> | badclr         -> ok
+    mr <k> new <start> <limit>       -> ok
+    mr <k> seek <b> <o>              -> st=<status>
+    mr <k> read <n>                  -> st=0 data=<hex> | st=<status>
+    mr <k> pos                       -> pos <block> <offset>
+    mr <k> q <b> <o> <n1,n2,..|->    -> <answer on reader k> || <answer of a fresh reader with k's window>
+         answer = seek=<st> reads=<st:hex;...|-> pos=<b>,<o>|-
+    dr <k> new <bs> <meta_start> <loc> <count> <bytes_used> <start:word,..|->   -> st=0
+         (the location arguments are for the harness, which loads the table from the image; the model is handed the entries)
+    dr <k> read <filesz> <blkstart> <fragidx> <fragoff> <w1,..|-> <offset> <size> -> <answer on reader k> || <fresh>
+         answer = ret=<n> data=<hex> | ret=<status>
+-/
 namespace Driver.C10
-/-- stub: the model driver for C10 is not built yet -/
-def run (_args : List String) : IO Unit := do
-  IO.eprintln "sqfsmodel: model C10 not built yet"
+open Sqfs.MetaReader
+
+structure St where
+  fix : Bool
+  bytes : Array UInt8 := #[]
+  bad : List (Nat × Nat) := []
+  mrs : Array (Option MR) := Array.replicate 16 none
+  drs : Array (Option Sqfs.DataReader.DR) := Array.replicate 8 none
+
+def St.file (s : St) : File :=
+  { size := s.bytes.size
+    byte := fun i => s.bytes.getD i 0
+    bad := fun i => s.bad.any (fun r => r.1 ≤ i && i < r.1 + r.2) }
+
+def showSt (n : Nat) : String := if n = 0 then "0" else "-" ++ toString n
+
+def nat? (s : String) : Option Nat := s.toNat?
+
+def natList? (s : String) : Option (List Nat) :=
+  if s = "-" then some [] else (s.splitOn ",").mapM (·.toNat?)
+
+/-- run a query on `m`: rendered answer and the state the object is left in -/
+def runQuery (fix : Bool) (f : File) (m : MR) (b o : Nat) (ns : List Nat) : String × MR :=
+  let s := seek fix f toyUnc m b o
+  if s.1 ≠ 0 then ("seek=" ++ showSt s.1 ++ " reads=- pos=-", s.2)
+  else
+    let rec go (m : MR) (ns : List Nat) (acc : List String) : List String × Option MR × MR :=
+      match ns with
+      | [] => (acc.reverse, some m, m)
+      | n :: rest =>
+        let r := read fix f toyUnc m n
+        if r.1 ≠ 0 then ((showSt r.1 ++ ":-") :: acc |>.reverse, none, r.2.2)
+        else go r.2.2 rest (("0:" ++ toHexTok r.2.1) :: acc)
+    let (rs, fin, m') := go s.2 ns []
+    let rstr := if rs.isEmpty then "-" else ";".intercalate rs
+    let pstr := match fin with
+      | some mm => let p := getPos mm; toString p.1 ++ "," ++ toString p.2
+      | none => "-"
+    ("seek=0 reads=" ++ rstr ++ " pos=" ++ pstr, m')
+
+def pairList? (s : String) : Option (List (Nat × Nat)) :=
+  if s = "-" then some [] else
+  (s.splitOn ",").mapM (fun p => match p.splitOn ":" with
+    | [a, b] => do let x ← a.toNat?; let y ← b.toNat?; pure (x, y)
+    | _ => none)
+
+def showRead (r : Status × Bytes) : String :=
+  if r.1 ≠ 0 then "ret=" ++ showSt r.1 else "ret=" ++ toString r.2.length ++ " data=" ++ toHexTok r.2
+
+def stepDr (s : St) (k : Nat) (rest : List String) : St × String :=
+  match rest with
+  | ["new", bs, _, _, _, _, ents] => match nat? bs, pairList? ents with
+      | some bs, some tbl => ({ s with drs := s.drs.set! k (some (Sqfs.DataReader.fresh bs tbl)) }, "st=0")
+      | _, _ => (s, "bad-op")
+  | ["read", fsz, bst, fi, fo, ws, off, sz] =>
+    match s.drs.getD k none, nat? fsz, nat? bst, nat? fi, nat? fo, natList? ws, nat? off, nat? sz with
+    | some d, some fsz, some bst, some fi, some fo, some ws, some off, some sz =>
+      let ino : Sqfs.DataReader.Inode := { fileSize := fsz, blocksStart := bst, fragIdx := fi, fragOff := fo, blocks := ws }
+      let kw := s.fix
+      let r := Sqfs.DataReader.read kw s.file toyUnc d ino off sz
+      let r2 := Sqfs.DataReader.read kw s.file toyUnc (Sqfs.DataReader.fresh d.blockSize d.tbl) ino off sz
+      ({ s with drs := s.drs.set! k (some r.2) }, showRead r.1 ++ " || " ++ showRead r2.1)
+    | _, _, _, _, _, _, _, _ => (s, "bad-op")
+  | _ => (s, "bad-op")
+
+def step (s : St) (line : String) : St × String :=
+  match words line with
+  | ["file", h] => match fromHex h with
+      | some bs => ({ s with bytes := bs.toArray, bad := [], mrs := Array.replicate 16 none, drs := Array.replicate 8 none }, "ok " ++ toString bs.length)
+      | none => (s, "bad-op")
+  | ["bad", a, b] => match nat? a, nat? b with
+      | some a, some b => ({ s with bad := (a, b) :: s.bad }, "ok")
+      | _, _ => (s, "bad-op")
+  | ["badclr"] => ({ s with bad := [] }, "ok")
+  | "dr" :: ks :: rest =>
+    match nat? ks with
+    | some k => if k ≥ s.drs.size then (s, "bad-op") else stepDr s k rest
+    | none => (s, "bad-op")
+  | "mr" :: ks :: rest =>
+    match nat? ks with
+    | none => (s, "bad-op")
+    | some k =>
+      if k ≥ s.mrs.size then (s, "bad-op") else
+      match rest with
+      | ["new", a, b] => match nat? a, nat? b with
+          | some a, some b => ({ s with mrs := s.mrs.set! k (some (fresh a b)) }, "ok")
+          | _, _ => (s, "bad-op")
+      | _ =>
+        match s.mrs.getD k none with
+        | none => (s, "bad-op")
+        | some m =>
+          match rest with
+          | ["seek", b, o] => match nat? b, nat? o with
+              | some b, some o =>
+                let r := seek s.fix s.file toyUnc m b o
+                ({ s with mrs := s.mrs.set! k (some r.2) }, "st=" ++ showSt r.1)
+              | _, _ => (s, "bad-op")
+          | ["read", n] => match nat? n with
+              | some n =>
+                let r := read s.fix s.file toyUnc m n
+                ({ s with mrs := s.mrs.set! k (some r.2.2) },
+                  if r.1 = 0 then "st=0 data=" ++ toHexTok r.2.1 else "st=" ++ showSt r.1)
+              | none => (s, "bad-op")
+          | ["pos"] => let p := getPos m; (s, "pos " ++ toString p.1 ++ " " ++ toString p.2)
+          | ["q", b, o, ns] => match nat? b, nat? o, natList? ns with
+              | some b, some o, some ns =>
+                let (a1, m') := runQuery s.fix s.file m b o ns
+                let (a2, _) := runQuery s.fix s.file (fresh m.start m.limit) b o ns
+                ({ s with mrs := s.mrs.set! k (some m') }, a1 ++ " || " ++ a2)
+              | _, _, _ => (s, "bad-op")
+          | _ => (s, "bad-op")
+  | _ => (s, "bad-op")
+
+def run (args : List String) : IO Unit := do
+  let fix := !(args.contains "old")
+  stateLoop (← IO.getStdin) (← IO.getStdout) step { fix := fix }
+
 end Driver.C10
